@@ -1164,3 +1164,39 @@ CLAIM += (" One curve run end to end (ecm_curve): in every commutative group in 
           "on the curve, blocks of SmoothBase::new(b1 <= 2^24) and any row of the table (ecm_curve_b_no_panic; check_gcd_factor and "
           "roots_eval assumed to return). Tied to the code by K on the real ecm_curve (returned pair) for curves with constructed "
           "orders at every boundary index of the grid, on both paths (direct products, roots_eval), and on the intermediate tables.")
+
+
+# ---- one run of the 128-bit ECM end to end (props/c15_ecm128.py; Model/Ecm128Curve.lean, Props/C15Ecm128.lean): merged into this property
+import props.c15_ecm128 as _e128
+
+K_OPS |= _e128.OPS
+MODELLED += [
+    "ecm128::ecm_curve end to end (Ymq/Model/Ecm128Curve.lean, every panic site a `none`): stage 1 over sb.factors (scalar64_mul = "
+    "Chain.scalar64Mul128 per block, the `fg.x == 0` exit with its gcd, the gcd after the loop), assert!(is_valid(ext(g))), the baby "
+    "steps (gaps = [dblext(g), dblext(proj(dblext(g)))] grown on demand, the walk of ecm.rs), the giant steps (scalar64_mul(d1, g), "
+    "dblext, then extended additions for 2..d2), the two-pass normalisation of y, the product of differences, the final gcd and the "
+    "returned pair; and the curve loop of ecm128::ecm around Suyama.select128; over abstract point operations (driver: the translated "
+    "e128* formulas over Z/n)",
+]
+_cases1, _oracle1, _klass1 = cases, oracle, klass
+
+
+def cases(tier, rng, extended=False):
+    yield from _e128.cases(_fork(rng, "C15-ecm128"), tier, extended)
+    yield from _cases1(tier, rng, extended)
+
+
+def oracle(case, ans):
+    if case.op in _e128.OPS:
+        if ans in ("hang", "abort", "?"):
+            return f"no value returned ({ans})"
+        if ans == "panic":
+            return "panic on a curve point (the domain ecm128::ecm passes)"
+        return _e128.oracle(case, ans)
+    return _oracle1(case, ans)
+
+
+def klass(case, ans):
+    if case.op in _e128.OPS:
+        return _e128.klass(case, ans)
+    return _klass1(case, ans)
